@@ -219,6 +219,58 @@ def main():
             fails.append(("rspawn:exit-code-class", obj, len(o)))
         if x != y:
             mism.append(obj)
+    # ---- the real qmail-rspawn around a stand-in qmail-remote: one report per command, its class decided by how the
+    #      child ENDED (also when the child closed the report pipe before it failed, and when the slot was used before)
+    import select as _sel, time as _t, signal as _sig
+    mess = os.path.join(home, "queue/mess/0/23")
+    os.makedirs(os.path.dirname(mess), exist_ok=True); open(mess, "w").write("Subject: t\n\nb\n")
+    for d_ in (home, os.path.join(home, "queue"), os.path.join(home, "queue/mess"), os.path.join(home, "queue/mess/0")): os.chmod(d_, 0o755)
+    os.chmod(mess, 0o644); os.chown(mess, vlib.QMAIL_USERS["qmailq"], 0)
+    KIND = {"ok": (0, 0), "x100": (0, 100), "x111": (0, 111), "x1": (0, 1), "crash": (1, 0), "late0": (0, 0), "late100": (0, 100), "late111": (0, 111), "latecrash": (1, 0),
+            "hard": (0, 0), "soft": (0, 0), "silent": (0, 0)}
+    OUT = {"hard": b"h127.0.0.1 does not like recipient.\nRemote host said: 550 no\n\0DGiving up on 127.0.0.1.\n\0", "soft": b"s127.0.0.1 does not like recipient.\nRemote host said: 450 later\n\0ZGiving up on 127.0.0.1.\n\0", "silent": b""}
+    OKREP = b"r\0K127.0.0.1 accepted message.\nRemote host said: 250 queued\n\0"
+    plans = [["ok", k] for k in KIND] + [["late0", "late100", "ok", "latecrash", "ok", "late111"], ["hard", "x100", "soft", "crash", "silent", "late100"]]
+    for _ in range(12 if ck.thorough else 4): plans.append([ck.rng.choice(list(KIND)) for _ in range(ck.rng.randint(2, 6))])
+    senv = dict(env, QMAILREMOTE=os.path.join(vlib.VERIF, "harness", "remote_stub.sh"))
+    rsruns = []
+    for plan in plans:
+        p = subprocess.Popen([rb.path("qmail-rspawn")], stdin=subprocess.PIPE, stdout=subprocess.PIPE, env=senv, bufsize=0, cwd=home)
+        fdo = p.stdout.fileno()
+        _sel.select([fdo], [], [], 5); os.read(fdo, 1)
+        for kind in plan:
+            os.write(p.stdin.fileno(), b"\1" + b"0/23\0sender@x.example\0" + kind.encode() + b"@dest.example\0")
+            buf = b""; end = _t.time() + 10
+            while _t.time() < end and not (len(buf) >= 2 and buf.find(b"\0", 1) >= 0):
+                r_, _, _ = _sel.select([fdo], [], [], 0.5)
+                if r_:
+                    d_ = os.read(fdo, 65536)
+                    if not d_: break
+                    buf += d_
+            _t.sleep(0.45 if kind.startswith("late") else 0.02)        # a late child has ended before the slot is used again
+            extra = b""
+            while _sel.select([fdo], [], [], 0)[0]:
+                d_ = os.read(fdo, 65536)
+                if not d_: break
+                extra += d_
+            rsruns.append((plan, kind, buf, extra))
+        p.stdin.close()
+        try: p.wait(timeout=5)
+        except Exception: p.kill()
+    mrep, _, _ = vlib.run_lines(drv, ["rep %d %d %s" % (KIND[k][0], KIND[k][1], vlib.hx(OUT.get(k, OKREP))) for _, k, _, _ in rsruns])
+    for (plan, kind, buf, extra), y in zip(rsruns, mrep):
+        ck.evaluated(); ck.count("rspawn_process_" + kind)
+        ck.nontrivial(("rsp", tuple(plan), kind))
+        c, e = KIND[kind]
+        nrep = (buf + extra).count(b"\0")
+        text = buf[1:buf.find(b"\0", 1)] if buf.find(b"\0", 1) >= 0 else buf[1:]
+        obj = dict(kind="history", component="qmail-rspawn (process)", plan=plan, command=kind, child_crashed=c, child_exit=e, child_output=OUT.get(kind, OKREP).decode("latin1"),
+                   observed=(buf + extra).decode("latin1")[:200], model=vlib.unhx(y).decode("latin1")[:120])
+        if buf[:1] != b"\1" or nrep != 1: fails.append(("rspawn:not-one-report-per-command", obj, len(plan)))
+        elif text[:1] == b"K" and not (c == 0 and e == 0 and kind in ("ok", "late0")): fails.append(("rspawn:upgraded-to-success", obj, len(plan)))
+        elif c and text[:1] != b"Z": fails.append(("rspawn:crash-not-temporary", obj, len(plan)))
+        elif not c and (e == 111 and text[:1] != b"Z" or e not in (0, 111) and text[:1] != b"D"): fails.append(("rspawn:exit-code-class", obj, len(plan)))
+        elif text != vlib.unhx(y): mism.append(obj)
     ck.cov["disagreements_checked"] = len(mism)
     ck.cov["rule"] = ("scripts: for 1..3 recipients, each protocol phase (greeting, HELO, MAIL, each RCPT, DATA, final dot) given every reply form of the classes "
                       "2xx/3xx/4xx/5xx (single- and multi-line, LF-only), garbage codes, and replies cut short / missing (disconnect), every class combination over the recipients, "
